@@ -15,6 +15,7 @@ RULE = ('operation in {connect without auth / with a signature / waiting for the
         '+ total + eps x calls, and every timeout handed to the transport <= effective read timeout <= total; non-trivial = every case; distinct = distinct (op, packet, stall, timeouts, twin)')
 ASSUMPTIONS = ['adbsim device model; virtual clock charges 1 ms per transport call so that polling loops terminate', 'auth_timeout_s=None (documented: wait forever) is excluded',
                'negative timeouts are treated by the in-memory transport like 0']
+PROGRAMMING_ERRORS = ('UnboundLocalError', 'NameError', 'AttributeError', 'TypeError', 'KeyError', 'IndexError', 'AssertionError', 'RuntimeError')     # never 'the error met while closing the stream'
 TIMEOUTS = ('AdbTimeoutError', 'TcpTimeoutException')
 CFG = dict(scen.ops_cfg('two', 4096))
 PUSH1, PUSH3 = 100, 9000
@@ -106,7 +107,7 @@ def run_stall(params, ch):
                 viol.append({'msg': '%s returned %r although the device stalled (%s) at awaited packet %d' % (op, r[1], params['kind'], k)})
             elif r[0] in ('hang', 'watchdog', 'deadlock'):
                 viol.append({'msg': '%s never finishes when the device stalls (%s) at awaited packet %d: %s (T=%r R=%r total=%r)' % (op, params['kind'], k, r, T, R, total), 'sig': sig})
-            elif r[1] not in TIMEOUTS and op in ('pull', 'pull-cb'):
+            elif r[1] not in TIMEOUTS and op in ('pull', 'pull-cb') and r[1] not in PROGRAMMING_ERRORS:
                 pass                   # C11: pull may instead report the error met while closing its stream afterwards
             elif r[1] not in TIMEOUTS:
                 viol.append({'msg': '%s raised %s (%s) when the device stalled (%s) at awaited packet %d' % (op, r[1], r[2][:80], params['kind'], k)})
